@@ -1,6 +1,6 @@
 ------------------------------ MODULE Gen_C13F ------------------------------
 EXTENDS MC_C13, IOUtils
 VARIABLE done
-FInit == done = ndJsonSerialize(IOEnv.OUT, SetToSeq(FillCases)) /\ bar = NewBar(<<4,4>>) /\ hist = <<>> /\ ret = TRUE /\ m0 = <<4,4>>
+FInit == done = ndJsonSerialize(IOEnv.OUT, SetToSeq(FillCases) \o SetToSeq({[meter |-> c.meter, v |-> c.v, n |-> c.n, placeat |-> TRUE] : c \in PlaceAtCases})) /\ bar = NewBar(<<4,4>>) /\ hist = <<>> /\ ret = TRUE /\ m0 = <<4,4>>
 FNext == FALSE /\ done' = done /\ UNCHANGED <<bar, hist, ret, m0>>
 =============================================================================
